@@ -146,7 +146,7 @@ def step (line : String) : String :=
       let fval := fun i => fvals.getD i none
       let tbl := lids.zip mids
       let evs := events rev interval (lookupMid tbl) (g.map (buildStream rev)) (f.map (buildStream rev)) lids
-      match evalAgg lim pick0 fn qs g.isSome gval fval evs with
+      match evalAgg SV.Extracted.C06.groupNotExistsPerBin lim pick0 fn qs g.isSome gval fval evs with
       | some a => s!"ok {fmtAS a true}"
       | none => "err parse"
     | _, _, _, _, _, _, _, _ => "bad-op"
